@@ -104,4 +104,106 @@ theorem lexEscape_simple (e ch : Char) (T : List Char) (p : Pos)
   rcases h with ⟨rfl, rfl⟩ | ⟨rfl, rfl⟩ | ⟨rfl, rfl⟩ | ⟨rfl, rfl⟩ | ⟨rfl, rfl⟩ | ⟨rfl, rfl⟩ | ⟨rfl, rfl⟩ <;>
     simp [lexEscape, advance]
 
+theorem charFromU32_toNat (c : Char) : charFromU32 c.toNat = some c := by
+  unfold charFromU32
+  have : c.toNat.isValidChar := c.valid
+  simp [this, Char.ofNatAux]
+  rfl
+
+theorem char_le_max (c : Char) : c.toNat ≤ 0x10FFFF := by
+  have := c.valid
+  rcases this with h | h
+  · have : c.toNat < 0xD800 := h
+    omega
+  · have : c.toNat < 0x110000 := h.2
+    omega
+
+theorem u_not_simple : ('u' : Char) ≠ '"' ∧ ('u' : Char) ≠ '\\' ∧ ('u' : Char) ≠ '/' ∧ ('u' : Char) ≠ 'b' ∧
+    ('u' : Char) ≠ 'f' ∧ ('u' : Char) ≠ 'n' ∧ ('u' : Char) ≠ 'r' ∧ ('u' : Char) ≠ 't' := by decide
+
+theorem lexEscape_u_bmp (R T : List Char) (p q : Pos) (n : Nat) (c : Char)
+    (hru : readUnit ⟨R, p.advance 'u'⟩ = .ok (n, ⟨T, q⟩)) (hns : ¬ (0xD800 ≤ n ∧ n ≤ 0xDFFF))
+    (hch : charFromU32 n = some c) :
+    lexEscape ⟨'u' :: R, p⟩ = .ok (c, ⟨T, q⟩) := by
+  obtain ⟨a1, a2, a3, a4, a5, a6, a7, a8⟩ := u_not_simple
+  have hadv : advance ⟨'u' :: R, p⟩ = .ok ('u', ⟨R, p.advance 'u'⟩) := rfl
+  unfold lexEscape
+  rw [hadv]
+  simp only [a1, a2, a3, a4, a5, a6, a7, a8, if_false, if_true]
+  rw [hru]
+  simp only [hns, if_false]
+  rw [hch]
+
+/-- the lexer decodes the `\\uXXXX` escape of any BMP character back to it -/
+theorem lexEscape_utf16_bmp (c : Char) (hb : c.toNat < 0x10000) (T : List Char) (p : Pos) :
+    lexEscape ⟨(utf16Escape c).drop 1 ++ T, p⟩ = .ok (c, ⟨T, advanceBy p ((utf16Escape c).drop 1)⟩) := by
+  have hch := charFromU32_toNat c
+  unfold utf16Escape
+  obtain ⟨hns, _⟩ := bmp_char_roundtrip c hb
+  have hru := readUnit_unitEscape c.toNat hb T (p.advance 'u')
+  simp only [hb, if_true]
+  simp only [unitEscape, List.drop, List.cons_append, List.nil_append] at hru ⊢
+  rw [lexEscape_u_bmp _ T p _ c.toNat c hru hns hch]
+  simp [advanceBy]
+
+/-- one character of the escaped string body is decoded by one iteration of the string loop -/
+theorem strLoop_escapeChar (esc : Char → Bool) (c : Char) (hc : c.toNat < 0x10000 ∨ esc c = false)
+    (T : List Char) (p : Pos) :
+    strLoop (escapeChar esc c ++ T) p = consRes c (strLoop T (advanceBy p (escapeChar esc c))) := by
+  unfold escapeChar
+  have simple : ∀ (e ch : Char), (e, ch) ∈ [('"', '"'), ('\\', '\\'), ('b', Char.ofNat 8), ('f', Char.ofNat 12), ('n', '\n'), ('r', '\r'), ('t', '\t')] →
+      strLoop (['\\', e] ++ T) p = consRes ch (strLoop T (advanceBy p ['\\', e])) := by
+    intro e ch h
+    have := strLoop_escape [e] T ch p ((p.advance '\\').advance e) (lexEscape_simple e ch T (p.advance '\\') h)
+    simpa [advanceBy] using this
+  split
+  · rename_i h; subst h; exact simple '\\' '\\' (by simp)
+  split
+  · rename_i h; subst h; exact simple 'n' '\n' (by simp)
+  split
+  · rename_i h; subst h; exact simple 'r' '\r' (by simp)
+  split
+  · rename_i h; subst h; exact simple 't' '\t' (by simp)
+  split
+  · rename_i h; subst h; exact simple 'b' (Char.ofNat 8) (by simp)
+  split
+  · rename_i h; subst h; exact simple 'f' (Char.ofNat 12) (by simp)
+  split
+  · rename_i h; subst h; exact simple '"' '"' (by simp)
+  rename_i h1 h2 h3 h4 h5 h6 h7
+  have raw : strLoop ([c] ++ T) p = consRes c (strLoop T (advanceBy p [c])) := by
+    have := strLoop_raw c T p h7 h1
+    simpa [advanceBy] using this
+  split
+  · exact raw
+  split
+  · rename_i hesc
+    have hb : c.toNat < 0x10000 := by
+      rcases hc with h | h
+      · exact h
+      · rw [h] at hesc; exact absurd hesc (by simp)
+    have hl := lexEscape_utf16_bmp c hb T (p.advance '\\')
+    have hform : utf16Escape c = '\\' :: (utf16Escape c).drop 1 := by
+      unfold utf16Escape; simp only [hb, if_true, unitEscape, List.drop]
+    have := strLoop_escape ((utf16Escape c).drop 1) T c p _ hl
+    rw [hform]
+    simp only [List.cons_append, advanceBy_cons]
+    exact this
+  · exact raw
+
+/-- **Escaper round trip**: the string loop of the lexer, run on the escaped body of `s` followed
+by the closing quote, returns exactly `s` and stops at the quote. -/
+theorem strLoop_escapeBody_partial (esc : Char → Bool) (s : List Char)
+    (hs : ∀ c ∈ s, c.toNat < 0x10000 ∨ esc c = false) (rest : List Char) (p : Pos) :
+    strLoop (escapeBody esc s ++ '"' :: rest) p =
+      .ok (s, ⟨'"' :: rest, advanceBy p (escapeBody esc s)⟩) := by
+  induction s generalizing p with
+  | nil => simp [escapeBody]; rw [strLoop]; simp
+  | cons c r ih =>
+    have hc := hs c (by simp)
+    have hr : ∀ x ∈ r, x.toNat < 0x10000 ∨ esc x = false := fun x hx => hs x (by simp [hx])
+    have e : escapeBody esc (c :: r) = escapeChar esc c ++ escapeBody esc r := by simp [escapeBody]
+    rw [e, List.append_assoc, strLoop_escapeChar esc c hc, ih hr, advanceBy_append]
+    rfl
+
 end Radix.Manifest
